@@ -1,0 +1,102 @@
+//go:build verif
+
+package getoptions
+
+// Machine-checked contracts for govc (the VC generator in /verif/govc).
+// This file contains comments only; it is compiled into nothing.
+
+// ---- isOption: token -> (option name, attached value) pairs -----------------------------
+//
+// LooksLikeOption(s): what the parser treats as an option token. "-" is the option "-", "--" is the
+// terminator (not an option), otherwise a dash followed by at least one character that is not '='.
+//@ spec func LooksLikeOption(s string) bool = s == "-" || (hasprefix(s, "-") && s != "--" && len(s) >= 2 && charat(s, 1) != "=")
+//
+// Long form --name[=value]: two dashes followed by a character that is not '='.
+//@ spec func IsLong(s string) bool = hasprefix(s, "--") && len(s) > 2 && charat(s, 2) != "="
+//@ spec func IsShort(s string) bool = LooksLikeOption(s) && !IsLong(s) && s != "-"
+//@ spec func Dashes(s string) int = ite(IsLong(s), 2, 1)
+// Name: the text between the dashes and the first '=' (or the end). Value: everything after that first '='.
+//@ spec func EqAt(s string) int = indexof(substr(s, Dashes(s), len(s)), "=")
+//@ spec func TokName(s string) string = ite(EqAt(s) < 0, substr(s, Dashes(s), len(s)), substr(s, Dashes(s), EqAt(s)))
+//@ spec func TokVal(s string) string = ite(EqAt(s) < 0, "", substr(s, Dashes(s) + EqAt(s) + 1, len(s)))
+//@ spec func NoArgs(p optionPair) bool = len(p.Args) == 0
+//@ spec func ArgsAre(p optionPair, v string) bool = ite(v == "", len(p.Args) == 0, len(p.Args) == 1 && p.Args[0] == v)
+
+//@ func isOption
+//@   props C01 C04 C07 C19
+//@   requires isopt.nowin: !windows
+//@   modifies
+//@   ensures isopt.terminator {C04}: s == "--" ==> !result1
+//@   ensures isopt.exact {C01,C03,C04,C08}: result1 == LooksLikeOption(s)
+//@   ensures isopt.dash {C07}: s == "-" ==> len(result0) == 1 && result0[0].Option == "-" && NoArgs(result0[0])
+//@   ensures isopt.long {C01,C07}: IsLong(s) ==> len(result0) == 1 && result0[0].Option == TokName(s) && ArgsAre(result0[0], TokVal(s))
+//@   ensures isopt.normal {C07}: IsShort(s) && mode != Bundling && mode != SingleDash ==> len(result0) == 1 && result0[0].Option == TokName(s) && ArgsAre(result0[0], TokVal(s))
+//@   ensures isopt.bundle {C07}: IsShort(s) && mode == Bundling ==> len(result0) == rune_count(TokName(s))
+//@       && (forall i int :: 0 <= i && i < len(result0) ==> result0[i].Option == explode(TokName(s))[i])
+//@       && (forall i int :: 0 <= i && i < len(result0) - 1 ==> NoArgs(result0[i]))
+//@       && ArgsAre(result0[len(result0) - 1], TokVal(s))
+//@   ensures isopt.single.count {C07}: IsShort(s) && mode == SingleDash ==> len(result0) == 1
+//@   loop "for _, option := range strings.Split(match[2], \"\")"
+//@     invariant bundle.len: len(opts) == $idx + 1
+//@     invariant bundle.names: forall i int :: 0 <= i && i <= $idx ==> opts[i].Option == explode(match[2])[i] && NoArgs(opts[i])
+
+// ---- abbreviations --------------------------------------------------------------------------
+
+//@ func getAliasNameFromPartialEntry
+//@   props C05 C19 C20
+//@   requires n != nil
+//@   modifies
+//@   ensures alias.exact {C05}: (entry in n.ChildOptions) ==> len(result) == 1 && result[0] == entry
+//@   ensures alias.sound {C05}: !(entry in n.ChildOptions) ==> (forall i int :: 0 <= i && i < len(result) ==> (result[i] in n.ChildOptions) && hasprefix(result[i], entry))
+//@   ensures alias.complete {C05,C08}: !(entry in n.ChildOptions) ==> (forall k string :: (k in n.ChildOptions) && hasprefix(k, entry) ==> inseq(k, result))
+//@   ensures alias.distinct {C05,C20}: forall i int, j int :: 0 <= i && i < j && j < len(result) ==> result[i] != result[j]
+//@   loop "for k := range n.ChildOptions"
+//@     invariant scan.sound: forall i int :: 0 <= i && i < len(matches) ==> (matches[i] in $seen) && (matches[i] in n.ChildOptions) && hasprefix(matches[i], entry)
+//@     invariant scan.complete: forall q string :: (q in $seen) && hasprefix(q, entry) ==> inseq(q, matches)
+//@     invariant scan.distinct: forall i int, j int :: 0 <= i && i < j && j < len(matches) ==> matches[i] != matches[j]
+
+// ---- tail copy -----------------------------------------------------------------------------
+
+//@ func storeRemainingAsText
+//@   props C03 C04 C09 C19
+//@   requires tail.iter: IterOK(iterator) && 0 <= iterator.idx && iterator.idx < len(*iterator.data) && n != nil
+//@   modifies iterator.idx, n.ChildText
+//@   ensures tail.idx: iterator.idx == len(*iterator.data)
+//@   ensures tail.copy {C03,C04,C09}: isconcat_tail(n.ChildText, old(n.ChildText), *iterator.data, old(iterator.idx))
+//@   loop "for iterator.Next()"
+//@     modifies iterator.idx, n.ChildText
+//@     invariant tail.bounds: old(iterator.idx) <= iterator.idx && iterator.idx < len(*iterator.data) && iterator.data == old(iterator.data)
+//@     invariant tail.len: len(n.ChildText) == old(len(n.ChildText)) + (iterator.idx - old(iterator.idx)) + 1
+//@     invariant tail.prefix: forall q int :: 0 <= q && q < old(len(n.ChildText)) ==> n.ChildText[q] == old(n.ChildText[q])
+//@     invariant tail.values: forall q int :: old(len(n.ChildText)) <= q && q < len(n.ChildText) ==> n.ChildText[q] == (*iterator.data)[old(iterator.idx) + (q - old(len(n.ChildText)))]
+//@     decreases len(*iterator.data) - iterator.idx
+
+// ---- definition tables -----------------------------------------------------------------------
+
+//@ func (*programTree).AddChildOption
+//@   props C02 C05 C06 C19
+//@   requires addopt.nonnil: n != nil && n.ChildOptions != nil && opt != nil
+//@   requires addopt.tbl: forall k string :: (k in n.ChildOptions) ==> n.ChildOptions[k] != nil
+//@   maypanic addopt.empty: name == ""
+//@   maypanic addopt.dup: name in n.ChildOptions
+//@   maypanic addopt.minmax: IsMultiKind(opt.OptType) && !(1 <= opt.MinArgs && opt.MinArgs <= opt.MaxArgs)
+//@   modifies mapof(n.ChildOptions)
+//@   ensures addopt.valid {C02,C05}: name != "" && !old(name in n.ChildOptions) && (IsMultiKind(opt.OptType) ==> 1 <= opt.MinArgs && opt.MinArgs <= opt.MaxArgs)
+//@   ensures addopt.dom {C05,C06}: forall k string :: (k in n.ChildOptions) == (old(k in n.ChildOptions) || k == name)
+//@   ensures addopt.val {C05,C06}: forall k string :: n.ChildOptions[k] == ite(k == name, opt, old(n.ChildOptions[k]))
+
+//@ func (*programTree).AddChildCommand
+//@   props C10 C19
+//@   requires addcmd.nonnil: n != nil && n.ChildCommands != nil
+//@   requires addcmd.tbl: forall k string :: (k in n.ChildCommands) ==> n.ChildCommands[k] != nil
+//@   maypanic addcmd.empty: name == ""
+//@   maypanic addcmd.dup: name in n.ChildCommands
+//@   modifies mapof(n.ChildCommands)
+//@   ensures addcmd.valid {C10}: name != "" && !old(name in n.ChildCommands)
+//@   ensures addcmd.dom {C10}: forall k string :: (k in n.ChildCommands) == (old(k in n.ChildCommands) || k == name)
+//@   ensures addcmd.val {C10}: forall k string :: n.ChildCommands[k] == ite(k == name, cmd, old(n.ChildCommands[k]))
+
+//@ func newUnknownCLIOption
+//@   props C03 C08 C19
+//@   modifies
+//@   ensures unk.fresh {C08}: fresh(result) && result.Name == name && result.Unknown && result.Verbatim == verbatim && result.OptType == option.StringRepeatType
